@@ -1,12 +1,73 @@
 /-
-ArtModel.Ops.Falcon — protocol handler(s) for the `falcon` operation family.
+ArtModel.Ops.Falcon — protocol handlers for the `falcon` operation family (C16).
 Core Lean only.  `none` = malformed line (the driver prints `bad-op`).
+All numbers are exact rationals (`R` lines).  CHANS as in `ArtModel/Ops/Fusion.lean`
+(three channels state;action;reward).  Column bounds of all modules are the
+identity (`d_min = 0`, `d_max = 1`): `prepare_data` of the action module is plain
+complement coding and a Fuzzy centre is `(w[:d] + 1 - w[d:]) / 2`.
+
+    falcon rew CHANS W S A
+        `get_rewards(S, A)` on the model with fused weights W (S, A prepared rows)
+      output  `r=<centre>|<centre>…`  (`-` for a row without answer)
+
+    falcon act CHANS MAX W STATE SPACE
+        `get_action(STATE, SPACE, optimality)`; MAX = 1 for "max", 0 for "min";
+        SPACE = matrix of raw (un-prepared) actions or `default` (action-channel centres)
+      output  `act=<vector|none> rewards=<centre>|<centre>…`
+
+    falcon sarsa ALPHA LAMBDA TRAINED CHANS W S A R SSR
+        `calculate_SARSA(S, A, R, single_sample_reward)`; TRAINED = 1 iff `modules[0]`
+        has a `W`; SSR = a number or `none`
+      output  `S=<states_fit> A=<actions_fit> T=<sarsa_rewards_fit>`
 -/
 import ArtModel.Driver
+import ArtModel.Falcon
+import ArtModel.Ops.Fusion
 
 namespace Art.Ops
 
+open Art.Drv Art.Fusion Art.Falcon
+
+def ccRat (a : List Rat) : List Rat := a ++ vcompl a
+
+def showOptVec : Option (List Rat) → String
+  | some v => showVec v
+  | none => "none"
+
 /-- handler for lines starting with `falcon `; `a` = the remaining space-separated fields -/
-def falcon (_a : List String) : Option String := none
+def falcon (a : List String) : Option String := do
+  match a with
+  | ["rew", chans, W, S, A] =>
+    let cs ← parseChans chans
+    let W ← parseMat (α := Rat) W
+    let S ← parseMat (α := Rat) S
+    let A ← parseMat (α := Rat) A
+    let ch := cs.map (·.toChan)
+    let rs := getRewards ch fuzzyCentre W S A
+    some ("r=" ++ (if rs.isEmpty then "-" else "|".intercalate (rs.map showOptVec)))
+  | ["act", chans, mx, W, state, space] =>
+    let cs ← parseChans chans
+    let mx ← parseBool mx
+    let W ← parseMat (α := Rat) W
+    let st ← parseVec (α := Rat) state
+    let sp ← if space == "default" then some none else (parseMat (α := Rat) space).map some
+    let ch := cs.map (·.toChan)
+    let act := getAction ch fuzzyCentre fuzzyCentre ccRat W st sp mx
+    let rs := actionRewards ch fuzzyCentre fuzzyCentre ccRat W st sp
+    some s!"act={showOptVec act} rewards={if rs.isEmpty then "-" else "|".intercalate (rs.map showOptVec)}"
+  | ["sarsa", al, la, tr, chans, W, S, A, R, ssr] =>
+    let al ← parseRat al
+    let la ← parseRat la
+    let tr ← parseBool tr
+    let cs ← parseChans chans
+    let W ← parseMat (α := Rat) W
+    let S ← parseMat (α := Rat) S
+    let A ← parseMat (α := Rat) A
+    let R ← parseMat (α := Rat) R
+    let ssr ← if ssr == "none" then some none else (parseRat ssr).map some
+    let ch := cs.map (·.toChan)
+    let (S', A', T) := calcSarsa al la tr (qValue ch fuzzyCentre W) S A R ssr
+    some s!"S={showMat S'} A={showMat A'} T={showMat T}"
+  | _ => none
 
 end Art.Ops
